@@ -25,6 +25,8 @@ func setupGenStubs() map[string]string {
 		"Gen_Context.tla":    "---- MODULE Gen_Context ----\nGenMaxLen == 1\n====\n",
 		"Gen_ClientIP.tla":   "---- MODULE Gen_ClientIP ----\nGenMaxLines == 1\nGenMaxEntries == 1\nGenMaxPrefix == 1\nGenWithEmpty == TRUE\n====\n",
 		"Gen_ObsServe.tla":   "---- MODULE Gen_ObsServe ----\nGenTable == << [m |-> \"GET\", pat |-> <<\"/\">>, opt |-> \"none\"] >>\nGenCfg == [noMethod |-> FALSE, autoOptions |-> FALSE]\nGenHost == <<\"a\">>\n====\n",
+		"Gen_ObsMatch.tla":   "---- MODULE Gen_ObsMatch ----\nGenPool == << <<\"/\">> >>\nGenTables == << {1} >>\n====\n",
+		"trace.ndjson":       "",
 		"obs.ndjson":         "",
 	}
 	m := map[string]string{"Gen_Match.tla": g.tla(false), "Gen_Serve.tla": sg.tla(), "Gen_Router.tla": rg.tla(), "Gen_Probe.tla": rg.probeTLA([][][2]int{{{1, 1}}})}
